@@ -87,6 +87,43 @@ def run(ctx, rep):
         rep.ob("C18.framing", "the transpiler tokenises the text of the line as written (no rewriting between read_line and split_string)",
                "violated" if rewriting else "ok", "the tokenised text goes through %s" % rewriting if rewriting else "", c.span, fn=tf.path,
                key="C18.framing|transpile_file|line-text-unchanged")
+    # ... nor edited in place: the only things that borrow the line buffer mutably are the read itself and the clear before the next one
+    rl = tf.calls_to("std::io::BufRead::read_line")
+    if not rl:
+        raise AnchorMissing("read_line in transpile_file")
+    bufs = set()
+    def base_of(l, depth=6):
+        """`&mut *(&mut buffer)`: the local a (re)borrow goes back to."""
+        for _ in range(depth):
+            ds = [d for d in rules.defs_of(tf, l) if d[0] == "assign" and "ref" in d[4] and not d[3].get("p")] if l is not None else []
+            if len(ds) != 1:
+                return None
+            pl = ds[0][4]["ref"]
+            pr = pl.get("p") or []
+            if not pr:
+                return pl["l"]
+            if pr == [["deref"]]:
+                l = pl["l"]
+                continue
+            return None
+        return None
+    for c in rl:
+        b = base_of(op_local(c.args[1]) if len(c.args) > 1 else None)
+        if b is not None:
+            bufs.add(b)
+    mut_refs = set()
+    for bi, si, dst, rv, st in tf.assigns():
+        if "ref" in rv and rv.get("mut") and not dst.get("p") and base_of(dst["l"]) in bufs:
+            mut_refs.add(dst["l"])
+    editors = []
+    for c in tf.calls():
+        if any(op_local(a) in mut_refs for a in c.args) and not c.matches(("std::io::BufRead::read_line", "alloc::string::String::clear")):
+            editors.append(c)
+    rep.ob("C18.framing", "the line buffer is only filled by read_line and cleared: nothing edits a line in place before it is tokenised",
+           "violated" if editors else "ok", ("edited by %s: characters inside quoted arguments are changed before the arguments are decoded" % sorted(
+               {mir.short(mir.strip_generics(x.callee())) for x in editors})) if editors else "%d line buffer(s)" % len(bufs),
+           editors[0].span if editors else tf.span, fn=tf.path, key="C18.framing|transpile_file|line-not-edited")
+    rep.floor("C18.framing line buffers of transpile_file", len(bufs), 1)
     for c in ss:
         # the argument text is what follows the first space of the line
         o = rules.origin_calls(tf, op_local(c.args[0]), transparent=rules.TRANSPARENT | {rules.TRY_BRANCH})
